@@ -161,7 +161,7 @@ def h_sched_cancel(e01, e2, pos, idx):
 
 
 # ------------------------------------------------------------------------------
-def _exec_run(sw, ebp, code, with_cancel, named_first):
+def _exec_run(sw, ebp, code, with_cancel, named_first, uids=('ta',)):
     env = X.Env(ebp, code)
     ex  = X.mk_popen(env, 'none', watch_iters=3)
     ta, tb = X.mk_xtask('ta'), X.mk_xtask('tb')
@@ -170,32 +170,40 @@ def _exec_run(sw, ebp, code, with_cancel, named_first):
     threads = [('watcher', X.CORO['_watch'](ex))]
     if with_cancel:
         threads.insert(0, ('control', X.CORO['_control_cb'](
-                                          ex, 'ctl', X.cancel_msg(['ta']))))
+                                          ex, 'ctl', X.cancel_msg(uids))))
     sch = C.Coop(threads, switch_at=sw)
+    env.sched = sch
     sch.run()
+    env.sched = None
     c07._finish(ex, env)
-    return ex, env
+    return ex, env, ta
+
+
+UIDS = [('ta',), ('zz', 'ta'), ('ta', 'zz'), ('zz', 'ta', 'yy')]
 
 
 @obligation(params={'sw1': (0, 44), 'sw2': (0, 44), 'ebp': (0, 4),
-                    'named_first': 'bool'},
+                    'named_first': 'bool', 'code': (0, 1), 'req': (0, 3)},
             shapes={'quick': [{'B': 1}], 'thorough': [{'B': 2}]},
             partition={'quick': ('sw1', 23), 'thorough': ('sw1', 45)},
             timeout={'quick': 300, 'thorough': 1800},
             funcs=c07.FUNCS,
             bounds='two launched tasks (named ta, bystander tb); cancel request '
-                   'for ta racing with the watcher; <= B pre-emptions; '
+                   'naming ta alone or together with uids unknown to this '
+                   'executor (before / after / around it) racing with the '
+                   'watcher; exit code 0 / 3; <= B pre-emptions; '
                    'processes exit before the k-th poll() overall (k=1..4) or '
                    'only when killed; the run is repeated without the request',
             stubs=['see C07'])
-def h_exec_cancel(sw1, sw2, ebp, named_first, B=2):
+def h_exec_cancel(sw1, sw2, ebp, named_first, code, req, B=2):
     """executor: named task killed and released once, bystander untouched"""
     if B < 2 and sw2: return
     if sw2 and sw2 < sw1: return
+    if B < 2 and req > 1 and sw1 > 20: return      # quick: keep it small
     sw  = c07._switches(sw1, sw2, 44)
-    ebp = conc(ebp, 0, 4)
-    ex1, env1 = _exec_run(sw, ebp, 0, True,  named_first)
-    ex0, env0 = _exec_run([], ebp, 0, False, named_first)
+    ebp, code, req = conc(ebp, 0, 4), [0, 3][conc(code, 0, 1)], conc(req, 0, 3)
+    ex1, env1, ta = _exec_run(sw, ebp, code, True,  named_first, UIDS[req])
+    ex0, env0, _  = _exec_run([], ebp, code, False, named_first)
     reach()
     sa = X.check_exactly_once(ex1, 'ta')
     sb = X.check_exactly_once(ex1, 'tb')
@@ -208,6 +216,16 @@ def h_exec_cancel(sw1, sw2, ebp, named_first, B=2):
     if ebp == 0:
         check(tgt == rps.CANCELED, 'named task still running at the request '
               'but ends %s', tgt)
+    # ... unless it had already finished when the request was handled: the
+    # first look the control thread took at the named process
+    pa = [p for p in env1.procs.values() if p.pid == 4001 + (0 if named_first
+                                                             else 1)]
+    first = [e for e in env1.poll_log if e[0] == 'control' and pa
+             and e[1] == pa[0].pid]
+    if first and first[0][2]:
+        check(tgt == (rps.DONE if code == 0 else rps.FAILED), 'named task '
+              'had already exited with %s when the request was handled but '
+              'ends %s', code, tgt)
     # bystander: never canceled, never killed; same outcome as without cancel
     tb_t = sb['handover_stageout'][0][1] if sb['handover_stageout'] else None
     check(tb_t != rps.CANCELED, 'bystander ended CANCELED')
